@@ -120,6 +120,13 @@ class LocalFuncV:
         self.node, self.env, self.mod, self.qual = node, env, mod, qual
 
 
+class StaticV:
+    """staticmethod(f) / classmethod-free wrapper stored as a class attribute"""
+
+    def __init__(self, fn):
+        self.fn = fn
+
+
 class PropertyV:
     """property(fget): a descriptor built at run time (installed on a class with setattr)"""
 
@@ -506,7 +513,8 @@ class Ev:
                 return FuncV(f"{owner.split(':')[0]}:{owner.split(':')[1]}.{name}", bound=v if kind == "classmethod" else None)
             if kind == "classattr":
                 m = self.model.mods[owner.split(":")[0]]
-                return self.eval(f, {}, m)
+                cv = self.eval(f, {"__qual__": f"{owner}.<classbody>"}, m)
+                return cv.fn if isinstance(cv, StaticV) else cv
         if isinstance(v, bool) and name in ("any", "all", "item"):
             return BoundLib("identity_method", v)
         if isinstance(v, str) and name in STR_METHODS:
@@ -588,7 +596,14 @@ class Ev:
             if kind == "classmethod":
                 return FuncV(oref, bound=ClsV(obj.cls))
             if kind == "classattr":
-                return self.eval(f, {}, omod)
+                cv = self.eval(f, {"__qual__": f"{owner}.<classbody>"}, omod)
+                if isinstance(cv, PropertyV):
+                    return self.call(cv.fget, [obj], {}, node, mod)       # name = property(getter): a property like any other
+                if isinstance(cv, StaticV):
+                    return cv.fn                                          # name = staticmethod(f): f itself
+                if isinstance(cv, FuncV) and cv.bound is None and not isinstance(f, ast.Lambda) and False:
+                    return FuncV(cv.ref, bound=obj)
+                return cv
         # instance attribute assigned in __init__ (or a method __init__ calls)
         v = self.init_attr(obj, name)
         if v is not NotImplemented:
@@ -2202,7 +2217,7 @@ STR_METHODS = {"lower", "upper", "strip", "split", "startswith", "endswith", "jo
 
 BUILTINS = {"id", "frozenset", "len", "range", "tuple", "list", "sorted", "zip", "map", "int", "float", "str", "sum", "abs", "min",
             "max", "round", "set", "dict", "enumerate", "isinstance", "next", "reversed", "any", "all", "open",
-            "print", "type", "callable", "getattr", "repr", "hash", "bool", "slice", "setattr", "property", "hasattr", "object", "filter"}
+            "print", "type", "callable", "getattr", "repr", "hash", "bool", "slice", "setattr", "property", "hasattr", "object", "filter", "staticmethod"}
 
 
 _LOC_CACHE, _GEN_CACHE = {}, {}
@@ -3563,7 +3578,10 @@ def lib_map(ev, a, k, n, mod):
     if len(a) == 2 and hasattr(a[1], "sym_next"):
         return LazyIter(ev, "map", fn, a[1], n, mod)
     seqs = [ev.iterate(x, n, mod) for x in a[1:]]
-    return Tup([ev.call(fn, list(args), {}, n, mod) for args in zip(*seqs)], "list")
+    out = Tup([ev.call(fn, list(args), {}, n, mod) for args in zip(*seqs)], "list")
+    if any(getattr(x, "elementwise_seq", False) or getattr(x, "elementwise", False) for x in a[1:]) and len(out.items) == 1:
+        out.elementwise = True          # one summarised "all rows" element stays one
+    return out
 
 
 def lib_reduce(ev, a, k, n, mod):
@@ -3655,6 +3673,7 @@ def lib_property(ev, a, k, n, mod):
 
 lib_property.kw = {"fget", "doc"}
 LIB["property"] = lib_property
+LIB["staticmethod"] = lambda ev, a, k, n, mod: StaticV(a[0])
 
 
 def lib_hasattr(ev, a, k, n, mod):
